@@ -80,7 +80,7 @@ mod message {
     #[derive(Debug, Default, Clone)]
     pub struct StunAttributes;
     pub fn create_stun_message(_m: MessageMethod, class: MessageClass, tid: Option<TransactionId>, _a: StunAttributes) -> StunMessage {
-        StunMessage { class, tid: tid.unwrap_or_default() }
+        StunMessage::light(class, tid.unwrap_or_default())
     }
 }
 mod fingerprint {
